@@ -10,13 +10,13 @@ import numpy as np
 import scipy.sparse as sps
 
 from harness import core
-from harness.core import Prop, cz, cnat, clist, coption
+from harness.core import Prop, cz, cnat, clist, cbool, coption
 
 import porepy as pp
 
 TMP = os.path.join(core.VERIF, ".cache", "tmp", "C38")
 KNOWN_POLY3D = ("import_state_from_vtu: 3-D polyhedral cell blocks not in increasing node "
-                "count (meshio cannot read the file back)")
+                "count (meshio cannot read the file back)")      # fixed in /repo d6f81ecfd
 
 # ------------------------------------------------------------------------------------------
 # hand-made grids
@@ -122,7 +122,8 @@ def gen_times(rng, steps):
         return [steps[0] + 0.5 * i for i in range(n)]
     if r < 0.8:                        # times far beyond the number of steps
         t0 = rng.choice([50.0, 1000.0, 12.5])
-        return [t0 + rng.choice([1.0, 2.5, 10.0]) * i for i in range(n)]
+        dt = rng.choice([1.0, 2.5, 10.0])
+        return [t0 + dt * i for i in range(n)]
     if r < 0.9:                        # every time equals the NEXT step's index
         return [float(s + 1) for s in steps]
     # the latest time equals an EARLIER step's index
@@ -141,12 +142,15 @@ class C38(Prop):
         "Coq theorems over an executable transcription of the exporter's cell bookkeeping: for "
         "ANY assignment of cell types to cells and ANY number/order of grids of one dimension "
         "the concatenated per-type cell-id lists are a permutation of 0..N-1 "
-        "(C38_cell_ids_permutation), hence writing values[ids] per block and, on import, "
+        "(C38_cell_ids_permutation), also when the blocks are sorted by type as for 3-D polyhedral grids "
+        "(C38_poly3d_blocks_sorted), hence writing values[ids] per block and, on import, "
         "scattering the concatenated blocks back through the ids and chopping by the "
         "entities' cell counts returns every entity's array exactly, whatever the "
-        "uninitialised buffer held (C38_roundtrip, any value type: scalars or vectors); the "
-        "restart step chosen from a pvd file is the numerically largest time step and the "
-        "files chosen are exactly those of that step (C38_pvd_latest); the time/dt history "
+        "uninitialised buffer held (C38_roundtrip, C38_roundtrip_poly3d, any value type: scalars or vectors); the "
+        "restart entry chosen from a pvd file is the one with the numerically largest time, the "
+        "files imported are exactly those LISTED with it, and they are the files of the most "
+        "recent export whenever the times increase — whatever the times are, not only step "
+        "indices (C38_pvd_latest, C38_pvd_most_recent); the time/dt history "
         "written by write_time_information is what load_time_information returns, and "
         "restoring at index i (python indexing, -1 = latest) yields the i-th written pair "
         "(C38_time_roundtrip, C38_time_restore). Every run builds real md-grids (fractured "
@@ -159,9 +163,12 @@ class C38(Prop):
         "the geometry/connectivity part of the files are covered only by the tie and the "
         "oracle (values restored cell by cell on the real files). Point data, constant data "
         "and the mdg-pvd variant are not modelled. Interfaces: the side grids play the role "
-        "of the grids, the interfaces that of the entities. Open finding: 3-D grids that end "
-        "up as polyhedral blocks in a non-increasing node-count order are written in a form "
-        "meshio cannot read back (ValueError inside meshio.read).")
+        "of the grids, the interfaces that of the entities. 3-D polyhedral blocks are written "
+        "in increasing node count (as repaired), the order meshio's reader needs; that need "
+        "itself is a fact about meshio covered only by the tie. The end-to-end restart of a real model "
+        "(SinglePhaseFlow run with dt != 1, restarted through restart_options from the "
+        "conventional pvd and from the mdg pvd) is covered by the oracle only: state, time, dt "
+        "and time-step counter must be those of the last export.")
     technique = ("Coq proof (stable partition by type is a permutation; scatter after gather is "
                  "the identity) + vm_compute execution correspondence on real Exporter "
                  "internals and real vtu/pvd/json files")
@@ -173,8 +180,9 @@ class C38(Prop):
             "physical times that differ from the indices (non-integer uneven spacing, constant "
             "dt 1/2, times far beyond the number of steps, times equal to the next / an "
             "earlier step's index), scalar and 3-vector cell data in multiples of 1/4, interface "
-            "data when there are interfaces; import through import_from_pvd; plus time-history "
-            "cases (1-6 writes, restore index in range and out of range); non-trivial = at "
+            "data when there are interfaces; import through import_from_pvd; plus 1 (thorough: 6) end-to-end restarts of a "
+            "SinglePhaseFlow run with dt in {1/4, 1/2, 1, 2} from the conventional / mdg pvd; plus "
+            "time-history cases (1-6 writes, restore index in range and out of range); non-trivial = at "
             "least two cell types in one dimension or two time steps; distinct by (case, output)")
     trusted = [
         "meshio (reading the written vtu files back for the comparison and inside the importer)",
@@ -189,6 +197,9 @@ class C38(Prop):
 
     # ---------------------------------------------------------------- generation
     def generate(self, rng, n, tier):
+        for k in range(1 if tier == "quick" else 6):
+            yield {"kind": "e2e", "dt": rng.choice([0.5, 0.25, 2.0, 1.0]),
+                   "nsteps": rng.choice([2, 3, 4]), "mdg_pvd": bool(k % 2)}
         for i in range(n):
             if i % 4 == 3:
                 k = rng.randint(1, 6)
@@ -236,9 +247,55 @@ class C38(Prop):
         os.makedirs(d, exist_ok=True)
         return d
 
+    def _run_e2e(self, case):
+        folder = self._folder()
+
+        class Model(pp.SinglePhaseFlow):
+            def bc_values_pressure(self, bg):
+                return np.full(bg.num_cells, 1.0 + self.time_manager.time)
+
+            def bc_type_darcy_flux(self, sd):
+                return pp.BoundaryCondition(sd, sd.get_boundary_faces(), "dir")
+
+        def params(tend, restart=None):
+            p = {"time_manager": pp.TimeManager(schedule=[0.0, tend], dt_init=case["dt"],
+                                                constant_dt=True),
+                 "folder_name": folder, "file_name": "run",
+                 "meshing_arguments": {"cell_size": 0.5},
+                 "material_constants": {"fluid": pp.FluidComponent(compressibility=0.1)}}
+            if restart is not None:
+                p["restart_options"] = restart
+            return p
+
+        try:
+            n = case["nsteps"]
+            m = Model(params(case["dt"] * n))
+            pp.run_time_dependent_model(m)
+            state = m.equation_system.get_variable_values(time_step_index=0).copy()
+            pvd = (Path(folder) / f"run_{n:06d}.pvd") if case["mdg_pvd"] else Path(folder) / "run.pvd"
+            m2 = Model(params(case["dt"] * (n + 2),
+                              {"restart": True, "pvd_file": pvd, "is_mdg_pvd": case["mdg_pvd"]}))
+            captured = {}
+            orig = m2.time_manager.set_time_and_dt_from_exported_steps
+
+            def spy(time_index=-1):
+                orig(time_index)
+                captured.update(index=int(time_index), time=float(m2.time_manager.time),
+                                dt=float(m2.time_manager.dt))
+
+            m2.time_manager.set_time_and_dt_from_exported_steps = spy
+            m2.prepare_simulation()
+            back = m2.equation_system.get_variable_values(time_step_index=0)
+            return {"restored": captured, "state_ok": bool(np.array_equal(back, state)),
+                    "written": [case["dt"] * n, case["dt"], n]}
+        finally:
+            shutil.rmtree(folder, ignore_errors=True)
+
     def run_impl(self, case):
         if case["kind"] == "time":
             return self._run_time(case)
+        if case["kind"] == "e2e":
+            return self._run_e2e(case)
         import meshio
         folder = self._folder()
         try:
@@ -355,6 +412,15 @@ class C38(Prop):
 
     # ---------------------------------------------------------------- oracle
     def oracle(self, case, res):
+        if case["kind"] == "e2e":
+            t, h, n = res["written"]
+            r = res["restored"]
+            if not res["state_ok"]:
+                return "model restart: the variable values differ from the last exported state"
+            if (r.get("time"), r.get("dt"), r.get("index")) != (t, h, n):
+                return (f"model restart: time/dt/index restored {r}, the last export was at "
+                        f"time {t} with dt {h}, time-step index {n}")
+            return None
         if case["kind"] == "time":
             k = len(case["steps"])
             ts = [s[0] for s in case["steps"]]
@@ -374,9 +440,7 @@ class C38(Prop):
         if sorted(res["picked"][2]) != want:
             return (f"import_from_pvd restarted from the files {sorted(res['picked'][2])}, the "
                     f"files of the most recent time-step index {last} are {want}")
-        times = case.get("times")
-        if (times is None or times == [float(x) for x in case["steps"]]) \
-                and res["picked"][0] != last:
+        if res["picked"][0] != last:
             return (f"import_from_pvd restarted from time step {res['picked'][0]}, the most "
                     f"recent one written is {last}")
         for dd, back in zip(res["dims"], res["restored"]):
@@ -388,6 +452,8 @@ class C38(Prop):
 
     # ---------------------------------------------------------------- Coq
     def coq_case(self, case, res):
+        if case["kind"] == "e2e":
+            return None          # oracle only
         if case["kind"] == "time":
             enc = lambda v: cz(int(float(v) * 1024))
             steps = clist([f"({enc(t)}, {enc(h)})" for t, h in case["steps"]])
@@ -413,27 +479,33 @@ class C38(Prop):
                 vals = clist(dd["vals"], lambda a: clist([pick(x) for x in a], cz))
                 blocks = clist(dd["blocks"], lambda b: clist([pick(x) for x in b], cz))
                 rest = clist(back, lambda a: clist([pick(x) for x in a], cz))
-                terms.append(f"dim_agree {grids} {ids} {vals} {blocks} {rest}")
+                three_d = cbool(dd["sd"] and dd["dim"] == 3)
+                terms.append(f"dim_agree {three_d} {grids} {ids} {vals} {blocks} {rest}")
         entries = clist([f"({cz(t)}, {cnat(f)})" for t, f in res["entries"]])
         picked = f"(Some ({cz(res['picked'][0])}, {clist(res['picked'][1], cnat)}))"
-        terms.append(f"pvd_agree {entries} {picked}")
+        suffixes = clist([int(Path(f).stem[-6:]) for f in res["picked"][3]], cz)
+        terms.append(f"pvd_agree {suffixes} {entries} {picked}")
         return "(" + " && ".join(terms) + ")"
 
     def nontrivial(self, case, res):
+        if case["kind"] == "e2e":
+            return True
         if case["kind"] == "time":
             return len(case["steps"]) > 1
         return len(case["steps"]) > 1 or any(
             len({t for g in dd["grids"] for t in g}) > 1 for dd in res["dims"])
 
     def finding_key(self, case, res, why):
-        if case["kind"] == "vtu" and "cannot be read back" in why:
-            for dd in res["dims"]:
-                if dd["sd"] and dd["dim"] == 3 and len(dd["ids"]) > 1:
-                    return KNOWN_POLY3D
-        if case["kind"] == "vtu" and "import_from_pvd restarted from" in why:
-            return "import_from_pvd: latest time step"
         if case["kind"] == "vtu":
+            if "import_from_pvd restarted from" in why:
+                return "import_from_pvd: latest time step"
+            for dd in res["dims"]:
+                if dd["sd"] and dd["dim"] == 3 and len(dd["ids"]) > 1 and (
+                        "cannot be read back" in why or "dimension 3" in why):
+                    return KNOWN_POLY3D
             return "import_state_from_vtu: interleaved cell types across subdomains of one dimension"
+        if case["kind"] == "e2e":
+            return "import_from_pvd: time index of a conventional pvd written with physical times"
         return "time-information"
 
     def shrink(self, case, still_fails):
